@@ -178,11 +178,76 @@ fn probe_image(dir: &Path, cfg: &SpecCfg, names: &Names, cont_key: &str, cont_va
     let gets_after_put = read_all(&h, names);
     drop(kv);
     let conf = cfg.real(dir, Knobs { concurrency: 1, cache: 4 });
+    let mut aft = json!({"done": false});
     let (reopened, gets_after_reopen) =
         match std::panic::catch_unwind(std::panic::AssertUnwindSafe(move || conf.open())) {
             Ok(Ok(kv2)) => {
-                let g = read_all(&kv2.get_handle(), names);
+                let h3 = kv2.get_handle();
+                let g = read_all(&h3, names);
+                // aftermath: the recovered store is used like any other - deletes and overwrites (chosen from
+                // the image's own bytes, so a replay repeats them), a merge pass, a restart, and a restart
+                // without hint files
+                let mut seedv: u64 = bytes_before.values().map(|b| b.len() as u64).sum::<u64>().wrapping_mul(2654435761).wrapping_add(bytes_before.len() as u64);
+                let mut acts: Vec<Value> = vec![];
+                let mut results: Vec<String> = vec![];
+                for key in names.keys.keys() {
+                    seedv = seedv.wrapping_mul(6364136223846793005).wrapping_add(1442695040888963407);
+                    let r = (seedv >> 33) % 4;
+                    let kb = names.key(key);
+                    let hh = h3.clone();
+                    if r < 2 {
+                        acts.push(json!(["del", key]));
+                        results.push(match std::panic::catch_unwind(std::panic::AssertUnwindSafe(move || hh.del(kb))) {
+                            Ok(Ok(true)) => "true".into(),
+                            Ok(Ok(false)) => "false".into(),
+                            Ok(Err(e)) => format!("err:{e}"),
+                            Err(_) => "panic".into(),
+                        });
+                    } else if r == 2 {
+                        acts.push(json!(["put", key, cont_val]));
+                        let vb = names.val(cont_val);
+                        results.push(match std::panic::catch_unwind(std::panic::AssertUnwindSafe(move || hh.set(kb, vb))) {
+                            Ok(Ok(())) => "ok".into(),
+                            Ok(Err(e)) => format!("err:{e}"),
+                            Err(_) => "panic".into(),
+                        });
+                    }
+                }
+                let hh = h3.clone();
+                let merge = match std::panic::catch_unwind(std::panic::AssertUnwindSafe(move || hh.verif_merge())) {
+                    Ok(Ok(())) => "ok".to_string(),
+                    Ok(Err(e)) => format!("err:{e}"),
+                    Err(_) => "panic".into(),
+                };
+                let gets3 = read_all(&h3, names);
+                drop(h3);
                 drop(kv2);
+                let open_read = |d: &Path| -> Value {
+                    let conf = cfg.real(d, Knobs { concurrency: 1, cache: 4 });
+                    match std::panic::catch_unwind(std::panic::AssertUnwindSafe(move || conf.open())) {
+                        Ok(Ok(kv3)) => {
+                            let g = read_all(&kv3.get_handle(), names);
+                            drop(kv3);
+                            json!({"opened": true, "gets": g})
+                        }
+                        Ok(Err(e)) => json!({"opened": false, "err": format!("{e}")}),
+                        Err(_) => json!({"opened": false, "err": "panic"}),
+                    }
+                };
+                // the copy without hint files is taken before the restart (which creates a new active file)
+                let nh = Scratch::new("nohint");
+                let mut nhints = 0;
+                for (name, bytes) in file_bytes(dir) {
+                    if name.ends_with(".hint") {
+                        nhints += 1;
+                    } else {
+                        fs::write(nh.path().join(&name), bytes).unwrap();
+                    }
+                }
+                let with_hints = open_read(dir);
+                let without_hints = open_read(nh.path());
+                aft = json!({"done": true, "acts": acts, "results": results, "merge": merge, "gets3": gets3,
+                             "hints": nhints, "with": with_hints, "without": without_hints});
                 (true, g)
             }
             _ => (false, json!({})),
@@ -191,7 +256,8 @@ fn probe_image(dir: &Path, cfg: &SpecCfg, names: &Names, cont_key: &str, cont_va
     json!({"opened": true, "map": map, "before": before, "after_open": after_open,
            "recovery_calls": recovery_calls, "modified_by_recovery": modified,
            "cont": {"k": cont_key, "v": cont_val, "put": put, "gets": gets_after_put,
-                    "reopened": reopened, "gets2": gets_after_reopen, "after": after_all}})
+                    "reopened": reopened, "gets2": gets_after_reopen, "after": after_all},
+           "aft": aft})
 }
 
 /// ["clock", secs]: the wall clock is stepped; not an operation of the store (no event, no call)
